@@ -34,12 +34,17 @@ class Scripted:
         self.us = [(2 * j + 1) / (2 * d2) for j in js]
         self.calls = 0
 
-    def random(self, *a, **kw):
-        if a or kw:
-            raise TypeError('scripted generator: only scalar random() is modelled')
+    def _next(self):
         u = self.us[self.calls] if self.calls < len(self.us) else 0.5
         self.calls += 1
         return u
+
+    def random(self, size=None, *a, **kw):
+        # scalar or vectorised draws: variates are handed out in order
+        if size is None:
+            return self._next()
+        k = int(np.prod(size))
+        return np.array([self._next() for _ in range(k)]).reshape(size)
 
 
 def on_grid(f, d2):
@@ -110,10 +115,12 @@ def drive(item):
                'samples': [], 'fast': [], 'wx': [], 'wz': [], 'bp_px': [], 'bp_pz': [],
                'upd': []}
         # sampler through generate(): all variates spread over the qubits
-        js_all = list(rng.permutation(d2)) * (1 + (2 * n) // d2 + 1)
-        nsamp = max(2, math.ceil(d2 / n) + 1)
-        for s in range(nsamp):
-            js = [int(js_all[(s * n + q) % len(js_all)]) for q in range(n)]
+        # a Latin arrangement: over the D2 samples every qubit receives every
+        # midpoint variate exactly once (offsets differ per qubit), so the
+        # per-qubit letter counts must equal the channel numerators exactly
+        offs = [int(x) for x in rng.integers(0, d2, size=n)]
+        for s in range(d2):
+            js = [(s + offs[q]) % d2 for q in range(n)]
             gen = Scripted(js, d2)
             e = np.asarray(em.generate(code, p, rng=gen)).ravel()
             ok = e.shape[0] == 2 * n
